@@ -20,4 +20,9 @@ case "$prop" in
 esac
 ./build.sh ${flavs//,/ } || exit 2
 first=${flavs%%,*}
-exec "$BUILD/$first/dst" check --prop "$prop" --tier "$tier" --flavours "$flavs" --level "$level" "$@"
+"$BUILD/$first/dst" check --prop "$prop" --tier "$tier" --flavours "$flavs" --level "$level" "$@"
+rc=$?
+# the evidence file is rewritten by every run; the last thorough run is kept next to it for reference
+out=${VERIF_OUT:-$ROOT}
+if [ "$tier" = thorough ] && [ -f "$out/evidence/$prop.json" ]; then mkdir -p "$out/evidence/thorough"; cp "$out/evidence/$prop.json" "$out/evidence/thorough/$prop.json"; fi
+exit $rc
